@@ -129,12 +129,14 @@ class Ctx:
         self.step_out = {}  # sid -> materialised step
         self.saved_states = {}
         self.culprits = []
+        self.held = []  # results the caller still holds: (label, array, digest) -- caller-owned once returned
         self.class_first = {}
         self.last_registry_sig = None
         self.flat_checked = set()
         self._flat_skip = False
         self._flat_checked_now = set()
         self._pending_res = None
+        self._held_res = None
         self.algs = {}  # name -> (algorithm object, digest of its __dict__)
         self.auto_defaults = [(o, self.alg_digest(o)) for o in world.AUTO_DEFAULTS]
         self.fired = Counter()
@@ -497,6 +499,11 @@ class Ctx:
             raise Violation("C18", "I-INPUT", {
                 "what": "caller-owned array changed (bytes/shape/strides/flags)", "arrays": bad[:4],
                 "after": after})
+        for label, a, dig in self.held:
+            if arr_digest(a, with_layout=True) != dig:
+                raise Violation("C18", "I-INPUT", {
+                    "what": "an array returned earlier (and still held by the caller) was modified by a later call",
+                    "which": label, "after": after})
         for name, (obj, dig) in self.algs.items():
             if self.alg_digest(obj) != dig:
                 raise Violation("C18", "I-INPUT", {
@@ -740,6 +747,7 @@ class Ctx:
 
         fault = self.prepare_faults(step, out_step, body)
         self._pending_res = None
+        self._held_res = None
         outcome = self._guarded(step, fault, body, store=step.get("out"))
         cur_used = self._last_used
         after = "call step %d (%s, outcome %s)" % (sid, step["fn"], outcome[0])
@@ -752,6 +760,9 @@ class Ctx:
                 self._last_outcome = outcome[:2]
             self._pending_res = None
         self.events.append(("call", sid, step["fn"], outcome[0], jhash(outcome[1:]), len(cur_used)))
+        if self.prop == "C18" and outcome[0] == "ok":
+            self.hold_result(self._held_res, "result of step %d (%s)" % (sid, step["fn"]))
+        self._held_res = None
         self.stats["calls:" + step["fn"]] += 1
         if "alg" not in step.get("args", {}) and step["fn"] in ("inv", "solve", "pinv_solve", "logdet", "slogdet", "unary",
                                                                 "unary_apply", "eig", "svd", "diag_default",
@@ -770,6 +781,26 @@ class Ctx:
                 raise Violation(*deferred)
         else:
             self.check_invariants(sid, after)
+
+    def hold_result(self, res, label):
+        """The caller keeps what a call returned: those arrays are caller-owned from then on (I-INPUT)."""
+        arrs = []
+
+        def walk(x, depth=0):
+            if isinstance(x, np.ndarray):
+                arrs.append(x)
+            elif isinstance(x, (tuple, list)) and depth < 3:
+                for v in x:
+                    walk(v, depth + 1)
+            elif isinstance(x, dict) and depth < 3:
+                for v in x.values():
+                    walk(v, depth + 1)
+
+        walk(res)
+        for a in arrs[:4]:
+            self.held.append((label, a, arr_digest(a, with_layout=True)))
+        del self.held[:-16]
+        self.stats["results_held"] += len(arrs[:4])
 
     def check_hutch_steps(self, step, args):
         """I-STEPS: Hutchinson performs <= max(1, max_iters) products (measured at the Probe seam)."""
@@ -987,6 +1018,7 @@ class Ctx:
                     self.stats["alloc_fail_absorbed"] += 1
                 outcome = ["faulted-returned", ""]
             else:
+                self._held_res = res if step["op"] == "call" else None
                 if step["op"] == "make":
                     outcome = ["ok", ""]
                 elif self.prop == "C18" and _first_op(res) is not None:
